@@ -997,6 +997,52 @@ where
         }
     }
 
+    /// Verification hook: a mock service whose distributed-compilation client cannot
+    /// be created (state `FailWithMessage`, as with an OAuth2 auth type and no cached
+    /// token): `get_client()` fails for every request of this service. Adds no behaviour.
+    #[cfg(all(sccache_verif, feature = "dist-client"))]
+    pub fn verif_mock_with_failing_dist_client(
+        msg: &str,
+        storage: Arc<dyn Storage>,
+        rt: tokio::runtime::Handle,
+    ) -> SccacheService<C> {
+        let (tx, _) = mpsc::channel(1);
+        let (_, info) = WaitUntilZero::new();
+        let client = Client::new_num(1);
+        SccacheService {
+            stats: Arc::default(),
+            dist_client: Arc::new(DistClientContainer::new_with_state(
+                DistClientState::FailWithMessage(
+                    Box::new(DistClientConfig {
+                        pool: rt.clone(),
+                        // a scheduler is configured and the auth type needs a token that
+                        // is not in the cached config: every attempt to (re)create the
+                        // client ends in FailWithMessage again
+                        scheduler_url: Some(config::HTTPUrl::from_url(
+                            reqwest::Url::parse("http://127.0.0.1:9/").unwrap(),
+                        )),
+                        auth: config::DistAuth::Oauth2Implicit {
+                            client_id: "verif".into(),
+                            auth_url: "http://verif.invalid/no-token-for-this-url".into(),
+                        },
+                        cache_dir: "".into(),
+                        toolchain_cache_size: 0,
+                        toolchains: vec![],
+                        rewrite_includes_only: false,
+                    }),
+                    msg.to_owned(),
+                ),
+            )),
+            storage,
+            compilers: Arc::default(),
+            compiler_proxies: Arc::default(),
+            rt: rt.clone(),
+            creator: C::new(&client),
+            tx,
+            info,
+        }
+    }
+
     fn bind<T>(self, socket: T) -> impl Future<Output = Result<()>> + Send + Sized + 'static
     where
         T: AsyncRead + AsyncWrite + Unpin + Send + 'static,
